@@ -15,6 +15,20 @@
  *   xmks s y    sl[s] = slice(arr[y])
  *   xshf s n | xtrm s n   sl[s].shift(n) / trim(n)   (n >= 0, window inside the data)
  *   prt x hex | str x | wr s nblk esz hex | wrz s nblk esz | flg x flags   as in the C harness
+ *   xnew x n    arr[x] = array(n)                       (array::array(size_t))
+ *   xiov x hex | xaiov x hex | xasp x hex   arr[x] = iovec / arr[x] += iovec / arr[x] += span<uint8_t>
+ *   xpre x hex | xinsz x off n   arr[x].prepend(len, data) / arr[x].insert(off, n, 0)
+ *   xsetc x kind hex   arr[x].set(convertable&): the source answers TypeVector (kind v), the character vector (c),
+ *                      's' (s), 's' with result 0 (e) or nothing (n)
+ *   xsetr x y   arr[x].set(reference<buffer> on the buffer of arr[y])
+ *   xsetv x kind hex   arr[x].set(value): TypeVector (V), vector of char / uint32 / double (c u d),
+ *                      one scalar char / uint32 / double (C U D)
+ *   xlen x n    array::content::set_length(n) on the block of arr[x] (private mutable blocks only)
+ *   xscp s t    sl[s] = slice(sl[t])                     (slice copy constructor)
+ *   xssc s kind hex    sl[s].set(convertable&)
+ * Cases that start with the token E drive struct encode_array (two objects, no encoder):
+ *   epush e hex | efin e | eprep e n | eshf e n | ecp e f | epm e hex hex (push(message): base part + one more part)
+ *   token: <res>|<done>:<scratch>:<bytes>:<data()>,<...> for both objects
  * Token per operation: <res>|<v0>,...,<v5>|<partition>|<mech>   (same as the C harness). */
 #include "common.h"
 #include <errno.h>
@@ -67,6 +81,7 @@ static long traits_id(const type_traits *t)
 {
 	if (!t) return 0;
 	if (t == type_traits::get('c')) return 1;
+	if (t == type_traits::get('u') || t == type_traits::get('d')) return (long) t->size;
 	return 90 + (long) t->size;
 }
 static void dump(void)
@@ -116,9 +131,118 @@ static bool consistent(int s)
 	size_t used = b ? b->used() : 0;
 	return p->off() + p->len() <= used;
 }
+
+/* a conversion source with chosen answers (array::set(convertable &), slice::set(convertable &)) */
+struct conv_src : convertable {
+	int kind;
+	struct iovec vec;
+	const char *txt;
+	virtual ~conv_src() { }
+	int convert(type_t type, void *ptr) __MPT_OVERRIDE
+	{
+		if (kind == 'v' && type == TypeVector) {
+			if (ptr) *static_cast<struct iovec *>(ptr) = vec;
+			return TypeVector;
+		}
+		if (kind == 'c' && type == MPT_type_toVector('c')) {
+			if (ptr) *static_cast<struct iovec *>(ptr) = vec;
+			return type;
+		}
+		if ((kind == 's' || kind == 'e') && type == 's') {
+			if (ptr) *static_cast<const char **>(ptr) = txt;
+			return kind == 'e' ? 0 : 's';
+		}
+		return BadType;
+	}
+};
+static int set_conv(array *a, slice *s, int kind, const uint8_t *d, size_t n)
+{
+	conv_src c;
+	char *t = (char *) malloc(n + 1);
+	int r;
+	memcpy(t, d, n); t[n] = 0;
+	c.kind = kind; c.vec.iov_base = (void *) d; c.vec.iov_len = n; c.txt = t;
+	r = s ? s->set(c) : a->set(c);
+	free(t);
+	return r;
+}
+/* struct encode_array with its protected members readable */
+struct enc_peek : encode_array {
+	size_t done() const { return _state.done; }
+	size_t scratch() const { return _state.scratch; }
+	const array &arr() const { return _d; }
+};
+static enc_peek *enc[2];
+static void enc_dump(void)
+{
+	int i;
+	vh_add("|");
+	for (i = 0; i < 2; i++) {
+		const peek_buffer *b = reinterpret_cast<const peek_buffer *>(enc[i]->arr().data());
+		size_t used = b ? b->used() : 0, part = enc[i]->done() + enc[i]->scratch();
+		if (i) vh_add(",");
+		vh_add("%zu:%zu:", enc[i]->done(), enc[i]->scratch());
+		vh_hex(b ? reinterpret_cast<const uint8_t *>(b + 1) : 0, used);
+		vh_add(":");
+		if (part > used) vh_add("!");
+		else {
+			span<const uint8_t> v = enc[i]->data();
+			/* the address must be the one inside the block, too */
+			if (v.size() && v.begin() != reinterpret_cast<const uint8_t *>(b + 1) + (used - part)) vh_add("!addr");
+			else vh_hex(v.begin(), v.size());
+		}
+	}
+}
+static void run_enc(int ntok, char **tok)
+{
+	int t = 2, i;
+	for (i = 0; i < 2; i++) enc[i] = new enc_peek;
+	while (t < ntok) {
+		const char *op = tok[t++];
+		long x = vh_int(tok[t++]);
+		int nargs = (!strcmp(op, "efin")) ? 0 : !strcmp(op, "epm") ? 2 : 1;
+		char **arg = tok + t;
+		t += nargs;
+		if (x < 0 || x > 1) vh_tok("G");
+		else if (!strcmp(op, "epush")) {
+			size_t n; uint8_t *d = vh_unhex(arg[0], &n);
+			ssize_t r = n ? enc[x]->push(n, d) : -1;
+			if (r < 0) vh_tok("R"); else vh_tok("D:%zd", r);
+			free(d);
+		}
+		else if (!strcmp(op, "efin")) {
+			ssize_t r = enc[x]->push(0, 0);
+			if (r < 0) vh_tok("R"); else vh_tok("D:%zd", r);
+		}
+		else if (!strcmp(op, "eprep")) vh_tok(enc[x]->prepare(vh_int(arg[0])) ? "D:0" : "R");
+		else if (!strcmp(op, "eshf")) vh_tok(enc[x]->shift(vh_int(arg[0])) ? "D:0" : "R");
+		else if (!strcmp(op, "ecp")) {
+			long y = vh_int(arg[0]);
+			if (y < 0 || y > 1) vh_tok("G");
+			else { *enc[x] = *enc[y]; vh_tok("D:0"); }
+		}
+		else if (!strcmp(op, "epm")) {
+			size_t n1, n2; uint8_t *d1 = vh_unhex(arg[0], &n1), *d2 = vh_unhex(arg[1], &n2);
+			struct iovec more;
+			message m(d1, n1);
+			bool r;
+			more.iov_base = d2; more.iov_len = n2;
+			m.cont = &more; m.clen = 1;
+			alarm(3);       /* a push that never ends is a failure of the case, not of the run */
+			r = enc[x]->push(m);
+			alarm(10);
+			vh_tok(r ? "D:0" : "R");
+			free(d1); free(d2);
+		}
+		else vh_tok("?%s", op);
+		enc_dump();
+	}
+	for (i = 0; i < 2; i++) delete enc[i];
+}
 static void run_case(int ntok, char **tok)
 {
 	int t = 1, i;
+	if (ntok > 1 && !strcmp(tok[1], "E")) { run_enc(ntok, tok); return; }
 	if (sizeof(hdr_view) + sizeof(buffer) != 8 * sizeof(void *) || sizeof(buf_view) != sizeof(buffer)
 	    || sizeof(slice_view) != sizeof(slice)) { vh_tok("?layout"); return; }
 	for (i = 0; i < NARR; i++) arr[i] = new array;
@@ -126,13 +250,17 @@ static void run_case(int ntok, char **tok)
 	while (t < ntok) {
 		const char *op = tok[t++];
 		long x = vh_int(tok[t++]);
-		int slice_op = !strcmp(op, "xmks") || !strcmp(op, "xshf") || !strcmp(op, "xtrm") || !strcmp(op, "wr") || !strcmp(op, "wrz");
+		int slice_op = !strcmp(op, "xmks") || !strcmp(op, "xshf") || !strcmp(op, "xtrm") || !strcmp(op, "wr") || !strcmp(op, "wrz")
+		               || !strcmp(op, "xscp") || !strcmp(op, "xssc");
 		int nargs = 0;
 		char **arg = tok + t;
 		if (!strcmp(op, "xcp") || !strcmp(op, "xapp") || !strcmp(op, "xset") || !strcmp(op, "xsetz") || !strcmp(op, "xsets")
 		    || !strcmp(op, "xasl") || !strcmp(op, "xmks") || !strcmp(op, "xshf") || !strcmp(op, "xtrm")
-		    || !strcmp(op, "prt") || !strcmp(op, "flg")) nargs = 1;
-		else if (!strcmp(op, "xins") || !strcmp(op, "wrz")) nargs = 2;
+		    || !strcmp(op, "prt") || !strcmp(op, "flg")
+		    || !strcmp(op, "xnew") || !strcmp(op, "xiov") || !strcmp(op, "xaiov") || !strcmp(op, "xasp") || !strcmp(op, "xpre")
+		    || !strcmp(op, "xsetr") || !strcmp(op, "xlen") || !strcmp(op, "xscp")) nargs = 1;
+		else if (!strcmp(op, "xins") || !strcmp(op, "wrz") || !strcmp(op, "xinsz") || !strcmp(op, "xsetc")
+		         || !strcmp(op, "xsetv") || !strcmp(op, "xssc")) nargs = 2;
 		else if (!strcmp(op, "wr")) nargs = 3;
 		t += nargs;
 		if (x < 0 || x >= NH || (x >= NARR) != slice_op) {
@@ -224,6 +352,83 @@ static void run_case(int ntok, char **tok)
 			else if (!esz) vh_tok("D:0/%zd", r);
 			else vh_tok("D:%zd/%zd", r, r);
 			free(d);
+		}
+		else if (!strcmp(op, "xnew")) {
+			size_t n = vh_int(arg[0]);
+			int had = arr[x]->data() ? 2 : 0;
+			*arr[x] = array(n);
+			if (n) vh_tok("D:0/%zu", reinterpret_cast<const peek_buffer *>(buf_of(x))->size());
+			else vh_tok("D:0/%d", had);
+		}
+		else if (!strcmp(op, "xiov") || !strcmp(op, "xaiov") || !strcmp(op, "xasp")) {
+			size_t n; uint8_t *d = vh_unhex(arg[0], &n);
+			struct iovec v;
+			const buffer *before = buf_of(x);
+			size_t ub = before ? reinterpret_cast<const peek_buffer *>(before)->used() : 0;
+			bool ok;
+			v.iov_base = d; v.iov_len = n;
+			if (op[1] == 'i') { *arr[x] = v; ok = arr[x]->length() == n && (!n || !memcmp(arr[x]->base(), d, n)); }
+			else if (!n) { vh_tok("G"); free(d); dump(); continue; }   /* (a refusal could not be told from success) */
+			else {
+				if (op[2] == 'i') *arr[x] += v; else *arr[x] += span<uint8_t>(d, n);
+				/* the operators do not report a refusal: it shows as an unchanged length */
+				const peek_buffer *after = reinterpret_cast<const peek_buffer *>(buf_of(x));
+				ok = after && after->used() == ub + n;
+			}
+			vh_tok(ok ? "D:0/0" : "R");
+			free(d);
+		}
+		else if (!strcmp(op, "xpre")) {
+			size_t n; uint8_t *d = vh_unhex(arg[0], &n);
+			void *r = arr[x]->prepend(n, d);
+			vh_tok(r ? "D:0/0" : "R");
+			free(d);
+		}
+		else if (!strcmp(op, "xinsz")) {
+			void *r = arr[x]->insert(vh_int(arg[0]), vh_int(arg[1]), 0);
+			vh_tok(r ? "D:0/0" : "R");
+		}
+		else if (!strcmp(op, "xsetc") || !strcmp(op, "xssc")) {
+			size_t n; uint8_t *d = vh_unhex(arg[1], &n);
+			int r = set_conv(x < NARR ? arr[x] : 0, x < NARR ? 0 : sl[x - NARR], arg[0][0], d, n);
+			vh_tok(r < 0 ? "R" : "D:0/0");
+			free(d);
+		}
+		else if (!strcmp(op, "xsetr")) {
+			long y = vh_int(arg[0]);
+			if (y < 0 || y >= NARR) vh_tok("G");
+			else {
+				reference<buffer> ref;
+				buffer *b = const_cast<array::content *>(arr[y]->data());
+				bool r;
+				if (b) b->addref();
+				ref.set_instance(b);
+				r = arr[x]->set(ref);
+				vh_tok(r ? "D:0/0" : "R");
+			}
+		}
+		else if (!strcmp(op, "xsetv")) {
+			size_t n; uint8_t *d = vh_unhex(arg[1], &n);
+			int kind = arg[0][0], r, elem = (kind | 0x20);
+			struct iovec v;
+			value val;
+			v.iov_base = d; v.iov_len = n;
+			if (kind == 'V') val.set(TypeVector, &v);
+			else if (kind >= 'a') val.set(MPT_type_toVector(elem), &v);
+			else val.set(elem, d);
+			r = arr[x]->set(val);
+			vh_tok(r < 0 ? "R" : "D:0/0");
+			free(d);
+		}
+		else if (!strcmp(op, "xlen")) {
+			array::content *c = const_cast<array::content *>(arr[x]->data());
+			if (!c || c->shared() || c->immutable()) vh_tok("G");
+			else vh_tok(c->set_length(vh_int(arg[0])) ? "D:0/0" : "R");
+		}
+		else if (!strcmp(op, "xscp")) {
+			long y = vh_int(arg[0]);
+			if (y < NARR || y >= NH) vh_tok("G");
+			else { *sl[x - NARR] = slice(*sl[y - NARR]); vh_tok("D:0/0"); }
 		}
 		else {
 			vh_tok("?%s", op);
